@@ -78,6 +78,11 @@ func contentPlan(prop string, tier string, root *simcore.RNG, sinks []string, nq
 				sc.Sites[s2] = 1
 			}
 		}
+		if r.Intn(8) == 0 {
+			sc.ConsStallMs, sc.ConsStallEvery = 3+r.Intn(4), pick(r, []int{1, 2, 4})
+			// the producer keeps running while the consumer is slow
+			sc.Sites["prod"], sc.Sites["write"] = 64, 64
+		}
 		pl.scenarios = append(pl.scenarios, sc)
 	}
 	// large outputs: round counts (and their neighbours) up to 2^16, thorough 2^17 / 2^20 for STL
